@@ -121,7 +121,7 @@ func c20Prog(r *Rng, idx int) *Prog {
 	validDone := false
 	for _, o := range p.Root.Opts {
 		if o.Kind.IsStr() && !o.Kind.IsMulti() && r.Chance(1, 2) {
-			o.Suggested = []string{"sugb", "suga", "other", "sugc"}
+			o.Suggested = []string{"sugb", "suga", "other", "sugc", "sug-of-" + o.Name} // one entry of its own
 		} else if o.Kind.IsStr() && !validDone && o.Env == "" && !o.Required {
 			o.Valid = []string{"debug", "info", "warn", "error", "info", "fatal", "debug"} // repeated entries
 			o.ValidSplit = idx%2 == 1                                                      // given through two ValidValues modifiers
@@ -179,6 +179,27 @@ func init() {
 			// (b2) help <topic> for every command (names share prefixes: c, co, cmd, clone ...)
 			for _, c := range cmds {
 				add("help-topic", &DriverReq{Prog: p, Kind: "parse", Argv: []string{"help", c}, Dispatch: true})
+			}
+			// (b2') topics that are not a command but the beginning of several command names, and the empty topic
+			nAbbr := 0
+			seenAbbr := map[string]bool{}
+			for i, c := range cmds {
+				for _, d := range cmds[i+1:] {
+					l := 0
+					for l < len(c) && l < len(d) && c[l] == d[l] {
+						l++
+					}
+					pre := c[:l]
+					if _, isCmd := t.Root.Children[pre]; pre == "" || isCmd || seenAbbr[pre] || nAbbr >= 3 {
+						continue
+					}
+					seenAbbr[pre] = true
+					nAbbr++
+					add("help-topic-abbreviated", &DriverReq{Prog: p, Kind: "parse", Argv: []string{"help", pre}, Dispatch: true})
+				}
+			}
+			if len(cmds) >= 2 {
+				add("help-topic-empty", &DriverReq{Prog: p, Kind: "parse", Argv: []string{"help", ""}, Dispatch: true})
 			}
 			// (b3) the help flag and an inherited root option behind every command (siblings of a wrapper included)
 			for i, c := range cmds {
@@ -269,6 +290,18 @@ func init() {
 					if isPrefix && nTyped < 2 {
 						nTyped++
 						add("completion-command-typed", &DriverReq{Prog: p, Kind: "comp", CompLine: "prog " + c, Zsh: zsh, Argv: []string{"prog", c, "prog"}})
+					}
+				}
+				// value completion behind an option text that is the beginning of several option names
+				nAmb := 0
+				seenAmb := map[string]bool{}
+				for _, k := range t.Root.SortedKeys() {
+					fr := FirstRune(k)
+					if _, _, amb := t.Root.ResolveKey(fr); len(amb) >= 2 && !seenAmb[fr] && nAmb < 3 && isASCII(fr) {
+						seenAmb[fr] = true
+						nAmb++
+						add("completion-values-ambiguous-name", &DriverReq{Prog: p, Kind: "comp", CompLine: "prog --" + fr + "=", Zsh: zsh, Argv: []string{"prog", "--" + fr + "=", "prog"}})
+						add("completion-values-ambiguous-name", &DriverReq{Prog: p, Kind: "comp", CompLine: "prog --" + fr + "=s", Zsh: zsh, Argv: []string{"prog", "--" + fr + "=s", "prog"}})
 					}
 				}
 				for _, o := range p.Root.Opts {
